@@ -87,6 +87,23 @@ reg(
   "At L=0 only niter==0 is judged; worlds that do not converge within 200 iterations are only checked for niter<=L.",
 )
 
+reg(
+  "C14",
+  "property-based model-based testing (Hypothesis) against MuJoCo mj_resetDataKeyframe, a never-reset twin and fresh make_data",
+  "Models with random keyframes x 1-4 worlds x generated histories x scalar keys (valid/invalid, python and numpy ints) and per-world key arrays mixing valid and "
+  "invalid indices (int32/int64; wrong shape/dtype/type): valid worlds must equal mj_resetDataKeyframe on all integration-state fields, invalid-index worlds stay "
+  "bit-unchanged, invalid scalar keys and malformed arrays must raise ValueError without touching Data.",
+  "MuJoCo is the reference (1e-6, float32 rounding); contact-list corruption by partial masks is the recorded C13/C14 finding.",
+)
+reg(
+  "C15",
+  "exhaustive enumeration of all 2^14 state signatures (sharded) with generated states and active masks, differential against mujoco.mj_getState/mj_stateSize plus round trip",
+  "Every signature 0..2^14-1 on two models that have every state component (na>nu, history, mocap, equalities, userdata), 3 worlds, random active masks: "
+  "get_state equals mj_getState element-wise and writes nothing beyond mj_stateSize or into inactive rows; set_state(get_state(x)) restores every selected field bitwise "
+  "and leaves unselected fields/worlds untouched; negative and too-large signatures must raise.",
+  "Exhaustive over signatures, sampled over states/masks; MuJoCo bindings are the reference.",
+)
+
 NOT_APPLICABLE = {}
 
 
